@@ -12,6 +12,8 @@ PKGS = {
     "bad": {"p.go": "package bad\n\ntype A struct{ N int }\ntype B struct{ A A }\n\nfunc NewB(a A) B { return B{A: a} }\n",
             "wire.go": HDR % "bad" + "func InitB() B {\n\tpanic(wire.Build(NewB))\n}\n"},
     "noinj": {"p.go": "package noinj\n\ntype A struct{ N int }\n\nfunc NewA() A { return A{N: 1} }\n"},
+    # only test files: nothing is compiled into the package, it has no injectors and no error
+    "tonly": {"x_test.go": "package tonly\n\nimport \"testing\"\n\nfunc TestX(t *testing.T) {}\n"},
     "needs": {"p.go": "package needs\n\ntype A struct{ N int }\n\nfunc NewA() (A, error) { return A{N: 1}, nil }\n",
               "wire.go": HDR % "needs" + "func InitA() A {\n\tpanic(wire.Build(NewA))\n}\n"},
     "nores": {"p.go": "package nores\n\ntype A struct{ N int }\n\nfunc NewA() A { return A{N: 1} }\n",
@@ -116,12 +118,20 @@ def eng_cli(pid, tier, wd, known, replay=None):
     kf = {k["key"]: k for k in known if k.get("status") == "finding"}
     stats = {"invocations": 0, "history_steps": 0, "mismatches": 0}
     coq_cases, coq_obs, descs = [], [], []
-    names = ["ok1", "ok2", "bad", "noinj", "needs"]
+    names = ["ok1", "ok2", "bad", "noinj", "needs", "tonly"]
+    # what the sources say, independently of the tool: does the package analyse cleanly?
+    clean = {"ok1": True, "ok2": True, "bad": False, "noinj": True, "needs": False, "tonly": True}
     optsets = [(), ("-output_file_prefix=zz_",), ("-header_file=HDR",), ("-tags=foo",)]
     ref = {}
     for o in optsets:
         for n in names:
             ref[(n, o)] = reference(wd, PKGS[n], n, o)
+            if (ref[(n, o)][0] == 0) != clean[n] or ((ref[(n, o)][1] is not None) != (clean[n] and "wire.go" in PKGS[n])):
+                viol.append(({"property": pid, "kind": "failing-input", "broken": "C17 oracle on the wire binary: one package alone", "input": {"invocation": {"cmd": "gen", "pkgs": [n], "opts": list(o)}},
+                              "impl": {"exit": ref[(n, o)][0], "wrote_output": ref[(n, o)][1] is not None},
+                              "oracle": ["package %s %s and %s injectors, but wire gen on it alone exits %d and %s" % (
+                                  n, "analyses cleanly" if clean[n] else "has an error", "has" if "wire.go" in PKGS[n] else "has no", ref[(n, o)][0],
+                                  "writes an output file" if ref[(n, o)][1] is not None else "writes nothing")], "seed": seed()}, True))
     pathid = {n: i + 1 for i, n in enumerate(names)}
 
     def check_case(cmd, pkgs, opts, prior, form="explicit", bad_header=False, bad_pattern=False):
@@ -201,7 +211,7 @@ def eng_cli(pid, tier, wd, known, replay=None):
 
     cases = []
     priors = ["absent", "equal", "stale", "garbage"]
-    for pk in [["ok1"], ["bad"], ["noinj"], ["needs"], ["ok1", "bad"], ["bad", "ok1"], ["ok2", "bad", "ok1"], ["ok1", "ok2", "noinj"], ["bad", "needs"]]:
+    for pk in [["ok1"], ["bad"], ["noinj"], ["needs"], ["ok1", "bad"], ["bad", "ok1"], ["ok2", "bad", "ok1"], ["ok1", "ok2", "noinj"], ["bad", "needs"], ["tonly"], ["ok1", "tonly"], ["tonly", "bad", "ok2"]]:
         for cmd in ("gen", "diff"):
             for pr in priors if (tier == "thorough" or len(pk) <= 2) else ["absent", "stale"]:
                 cases.append((cmd, pk, (), {n: pr for n in pk}))
